@@ -14,6 +14,7 @@ I nodes   ('L', v)  v in 0 1 2          literal / stable read / volatile        
           ('sel', W, I, f, o, off, lim) with W select I filter/order by/offset/limit -> N(pW.. pI fF oO pOff pLim)
           ('for', Ii, Ib)               for v in Ii union (Ib + v)                 -> N(pIi pIb)
           ('call', fid, [I])            f<fid>(I)   (function of sort I)           -> C<fid>(pI...)
+          ('withuse', X)                with v := (X) select count(v) / select v   (a USED binding) -> N(pX)
 O nodes   ('ins', W, [I], [O], conf)    insert T {ns := I.., kids := O..} [unless conflict ...]
                                         conf: None | 'uc' | ('else_sel',) | ('else_upd', [I])
                                                                                    -> I(pW.. mI.. mO.. [pN()|pU(mI..)])
@@ -29,7 +30,7 @@ O nodes   ('ins', W, [I], [O], conf)    insert T {ns := I.., kids := O..} [unles
 """
 from __future__ import annotations
 
-I_KINDS = ('L', 'P', 'cnt', 'grp', 'op', 'coal', 'if', 'set', 'sel', 'for', 'call')
+I_KINDS = ('L', 'P', 'cnt', 'grp', 'op', 'coal', 'if', 'set', 'sel', 'for', 'call', 'withuse')
 O_KINDS = ('ins', 'upd', 'del', 'selO', 'free', 'callO', 'forO', 'delof', 'updof', 'selof', 'ifO', 'coalO', 'setO',
            'sel_same', 'upd_same')
 VOLNAME = ['Immutable', 'Stable', 'Volatile', 'Modifying']
@@ -142,6 +143,10 @@ def render(n, env, toplevel=False):
         it = render(n[1], env)
         v = env.fresh_var()
         return f'for {v} in ({it}) union (({render(n[2], env)}) + {v})'
+    if k == 'withuse':
+        x = render(n[1], env)
+        v = env.fresh_var()
+        return f'with {v} := ({x}) select (' + (f'count({v})' if is_O(n[1]) else v) + ')'
     if k in ('call', 'callO'):
         # arguments are made singletons (a Modifying function refuses possibly-multi arguments); an object
         # result is made DISTINCT so that it can be assigned to a link
@@ -214,7 +219,7 @@ def render(n, env, toplevel=False):
     raise ValueError(k)
 
 
-RAW_ROOTS = ('ins', 'upd', 'del', 'selO', 'sel', 'for', 'forO', 'delof', 'updof', 'selof')
+RAW_ROOTS = ('ins', 'upd', 'del', 'selO', 'sel', 'for', 'forO', 'delof', 'updof', 'selof', 'withuse')
 
 
 def render_query(n, env=None):
@@ -235,7 +240,7 @@ def erase(n):
         return f'L{n[1]}'
     if k == 'P':
         return 'L0'
-    if k in ('cnt', 'grp'):
+    if k in ('cnt', 'grp', 'withuse'):
         return 'N' + _kids([('p', n[1])])
     if k in ('op', 'coal', 'coalO'):
         return 'N' + _kids([('p', n[1]), ('p', n[2])])
@@ -293,7 +298,7 @@ def children(n):
         return []
     if k == 'upd_same':
         return [('m', x) for x in n[1]]
-    if k in ('cnt', 'grp', 'delof'):
+    if k in ('cnt', 'grp', 'delof', 'withuse'):
         return [('p', n[1])]
     if k in ('op', 'coal', 'coalO', 'for', 'forO'):
         return [('p', n[1]), ('p', n[2])]
